@@ -7,6 +7,10 @@ CONSTANTS
   Messages <- SimMessages
   Servers <- GenServers
   Forms <- GenForms
+  Vias <- DirectOnly
+  XCodes <- QuickXCodes
+  XStatuses <- QuickXStatuses
+  XMessages <- QuickXMessages
   MaxServes = 8
   Deviation = "none"
 INVARIANTS EmitHist SuccessIff EnvelopeWellFormed ErrorOwnCode UnmarshalableIsError ClientNeverConfuses ResponseOfCurrentValue AnswerIsCurrent
